@@ -241,7 +241,9 @@ def parseInputLine (line : Line) (loc : Option Nat) : PM (Option J) := do
       | none => pure none
     else
       let ms := reFindAll reAttr (after.length + 1) after
-      let spec := ms.foldl (fun acc cs => objSet acc (String.ofList (cap cs 1)) (.str (cap cs 2))) [("type", jstr "input")]
+      -- (an attribute named `type` does not overwrite the token's own type)
+      let spec := ms.foldl (fun acc cs =>
+        if String.ofList (cap cs 1) == "type" then acc else objSet acc (String.ofList (cap cs 1)) (.str (cap cs 2))) [("type", jstr "input")]
       match objGet? spec "name" with
       | none =>
         match loc with
@@ -277,6 +279,7 @@ inductive StmtVerdict
 
 inductive CallVerdict
   | shape (npos : Nat) (kws : List Line)  -- number of positional arguments, keyword names in order
+  | star                                  -- a `*seq` or `**mapping` argument
   | syntaxError
   | miss
 
